@@ -6893,6 +6893,9 @@ protected:
 	FFSM2_CONSTEXPR(14)	bool applyRequest(const Transition& currentTransition,
 										  const StateID destination)							noexcept;
 
+	FFSM2_CONSTEXPR(14)	bool applyRequest(const Transition& currentTransition,
+										  const Transition& request)							noexcept;
+
 	FFSM2_CONSTEXPR(14)	bool cancelledByEntryGuards(const Transition& currentTransition,
 													const Transition& pendingTransition)		noexcept;
 
@@ -7091,7 +7094,7 @@ R_<TG_, TA_>::initialEnter() noexcept {
 		const Short requestedBackup = _core.registry.requested;
 
 		if (applyRequest(currentTransition,
-						 _core.request.destination))
+						 _core.request))
 		{
 			pendingTransition = _core.request;
 			_core.request.clear();
@@ -7174,7 +7177,7 @@ R_<TG_, TA_>::processTransitions(Transition& currentTransition) noexcept {
 		const Short requestedBackup = _core.registry.requested;
 
 		if (applyRequest(currentTransition,
-						 _core.request.destination))
+						 _core.request))
 		{
 			pendingTransition = _core.request;
 			_core.request.clear();
@@ -7205,6 +7208,21 @@ R_<TG_, TA_>::applyRequest(const Transition& currentTransition,
 {
 	if (currentTransition != Transition{destination}) {
 		_core.registry.requested = destination;
+
+		return true;
+	} else
+		return false;
+}
+
+template <typename TG_, typename TA_>
+FFSM2_CONSTEXPR(14)
+bool
+R_<TG_, TA_>::applyRequest(const Transition& currentTransition,
+						   const Transition& request) noexcept
+{
+	// only a request that repeats the transition already accepted needs no new round of guards
+	if (currentTransition != request) {
+		_core.registry.requested = request.destination;
 
 		return true;
 	} else
